@@ -611,7 +611,11 @@ type c11Result struct {
 }
 
 func c11WaitUntil(d time.Duration, cond func() bool) bool {
+	// The wait expires only when BOTH the wall-clock deadline has passed AND this goroutine has itself been
+	// scheduled for d's worth of 200 microsecond sleeps: if the whole machine (or VM) stalls, the clock jumps but
+	// the tick count does not, so a stall cannot turn into an expired watchdog.
 	deadline := time.Now().Add(d)
+	ticks := int64(d / (200 * time.Microsecond))
 	for i := 0; ; i++ {
 		if cond() {
 			return true
@@ -619,8 +623,9 @@ func c11WaitUntil(d time.Duration, cond func() bool) bool {
 		if i < 50 {
 			runtime.Gosched()
 		} else {
-			time.Sleep(20 * time.Microsecond)
-			if i%64 == 0 && time.Now().After(deadline) {
+			time.Sleep(200 * time.Microsecond)
+			ticks--
+			if ticks <= 0 && time.Now().After(deadline) {
 				return false
 			}
 		}
@@ -783,8 +788,9 @@ func c11Run(t *testing.T, c *c11Case, sched [][]int, stepWait, watchdog time.Dur
 		// the model predicts that Put returns now without further answers
 		obs.sync = false
 	}
-	deadline := time.Now().Add(watchdog)
-	for !returned() && time.Now().Before(deadline) {
+	// (counted in completed quarter-watchdog waits of c11WaitUntil, which are immune to clock jumps, not in wall time)
+	idleWaits := 0
+	for !returned() && idleWaits < 4 {
 		var all []*c11Req
 		c11WaitUntil(watchdog/4, func() bool {
 			if returned() {
@@ -799,14 +805,20 @@ func c11Run(t *testing.T, c *c11Case, sched [][]int, stepWait, watchdog time.Dur
 		all = stub.snapshot()
 		out := outstanding(all)
 		if len(out) == 0 {
+			idleWaits++
 			continue
 		}
 		batch := svcsOf(all[nseen:])
 		nseen = len(all)
 		release(out[0], batch)
-		deadline = time.Now().Add(watchdog)
+		idleWaits = 0
 	}
 	obs.returned = returned()
+	if !obs.returned {
+		// where is it blocked?  (kept in the case description)
+		buf := make([]byte, 1<<17)
+		obs.diag = fmt.Sprintf("Put has not returned after %v; goroutines: %s", watchdog, buf[:runtime.Stack(buf, true)])
+	}
 	if res != nil {
 		obs.loc, obs.n = res.loc, res.n
 		switch {
